@@ -89,8 +89,7 @@ package round
 //@   nopanic[C05,C17]
 //@   sequential
 //@   requires h != nil && !excl(h.mtx) && hashable(value)
-//@   modifies nothing
-//@   allocates
+//@   modifies hstate(h.hash)
 //@   ensures !excl(h.mtx)
 
 //@ func (*Helper).BroadcastMessage
